@@ -16,3 +16,138 @@ Definition rebuild (fresh_wiring : list (nat * nat)) (fresh_gates : list nat) (s
 
 Definition neurons (l : lstate) : list (nat * nat * nat) := map (fun p => (fst (fst p), snd (fst p), snd p)) (combine (wiring l) (gates l)).
 Definition eval_layer_state (l : lstate) (x : list bool) : list bool := eval_dense (neurons l) x.
+
+(* ===================================================================================================================
+   The persistence code of the layers as it is written (statement-by-statement tie: Gen/PersistSrc.v).
+
+   torch's load_state_dict copies a parameter only when its shape equals the receiving parameter's shape (otherwise it
+   reports an error and the load fails), and hands the entry `_extra_state` to set_extra_state; a checkpoint without that
+   entry gets the receiving layer's own extra state (`state_dict.setdefault(...)` in _load_from_state_dict).
+   =================================================================================================================== *)
+From Coq Require Import ZArith Arith.
+From TLX Require Import Model.CLang.
+
+(* ---- LogicDense ---- *)
+Record dlayer := { dl_in : nat; dl_out : nat; dl_gates : list nat; dl_a : list Z; dl_b : list Z }.
+Record dsaved := { sv_gates : list nat; sv_extra : option (list (list Z)) }.    (* weight rows; the tuple of index tensors *)
+
+Definition in_range (n : nat) (v : Z) : bool := (0 <=? v)%Z && (v <? Z.of_nat n)%Z.
+
+(* what the constructor guarantees and what forward / the code generator need: one gate and one pair per neuron, every
+   wire an existing input *)
+Definition dense_wf (l : dlayer) : bool :=
+  (length (dl_gates l) =? dl_out l) && (length (dl_a l) =? dl_out l) && (length (dl_b l) =? dl_out l)
+  && forallb (in_range (dl_in l)) (dl_a l) && forallb (in_range (dl_in l)) (dl_b l).
+
+(* state_dict(): weight + get_extra_state() = {'indices': (a, b)} *)
+Definition dense_save (l : dlayer) : dsaved := {| sv_gates := dl_gates l; sv_extra := Some [dl_a l; dl_b l] |}.
+
+(* set_extra_state: `len(indices) != 2 or any(i.shape != (out_dim,) or (i.numel() > 0 and (i.min() < 0 or i.max() >= in_dim)))` raises *)
+Definition dense_extra_fits (fresh : dlayer) (idx : list (list Z)) : bool :=
+  (length idx =? 2) && forallb (fun i => (length i =? dl_out fresh) && forallb (in_range (dl_in fresh)) i) idx.
+
+Definition dense_load (fresh : dlayer) (sv : dsaved) : option dlayer :=
+  if negb (length (sv_gates sv) =? dl_out fresh) then None            (* size mismatch for weight *)
+  else match sv_extra sv with
+       | None => Some {| dl_in := dl_in fresh; dl_out := dl_out fresh; dl_gates := sv_gates sv; dl_a := dl_a fresh; dl_b := dl_b fresh |}
+       | Some idx =>
+           if dense_extra_fits fresh idx
+           then Some {| dl_in := dl_in fresh; dl_out := dl_out fresh; dl_gates := sv_gates sv;
+                        dl_a := nth 0 idx []; dl_b := nth 1 idx [] |}
+           else None
+       end.
+
+Definition dense_neurons (l : dlayer) : list (nat * nat * nat) :=
+  map (fun p => (Z.to_nat (fst (fst p)), Z.to_nat (snd (fst p)), snd p)) (combine (combine (dl_a l) (dl_b l)) (dl_gates l)).
+Definition dense_eval (l : dlayer) (x : list bool) : list bool := eval_dense (dense_neurons l) x.
+
+(* ---- logic convolutions (2-D and 3-D share _PersistentWiring) ---- *)
+Record tens := { shp : list nat; dat : list Z }.
+Definition tens_shape_eqb (a b : tens) : bool := list_eqb Nat.eqb (shp a) (shp b).
+
+(* _geometry(): receptive_field_size is an int (2-D layers, cubic 3-D) or a tuple *)
+Record geom := { g_in : list nat; g_channels : nat; g_kernels : nat; g_depth : nat; g_stride : nat; g_padding : nat;
+                 g_rf : nat + list nat }.
+Definition rf_eqb (a b : nat + list nat) : bool :=
+  match a, b with inl x, inl y => x =? y | inr x, inr y => list_eqb Nat.eqb x y | _, _ => false end.
+Definition geom_eqb (a b : geom) : bool :=
+  list_eqb Nat.eqb (g_in a) (g_in b) && (g_channels a =? g_channels b) && (g_kernels a =? g_kernels b)
+  && (g_depth a =? g_depth b) && (g_stride a =? g_stride b) && (g_padding a =? g_padding b) && rf_eqb (g_rf a) (g_rf b).
+
+(* limits = (tuple(rf) if tuple else (rf,) * len(in_dim)) + (channels,) *)
+Definition rf_limits (g : geom) : list nat :=
+  (match g_rf g with inl r => repeat r (length (g_in g)) | inr l => l end) ++ [g_channels g].
+
+Record clayer := { c_geom : geom;
+                   c_gates : list (list (list nat));       (* level, node, kernel *)
+                   c_pairs : list tens;                    (* kernel_pairs: (a, b), each (kernels, 2^depth, dims + 1) *)
+                   c_indices : list (list tens) }.         (* per tree level a tuple of index tensors *)
+Record csaved := { cs_gates : list (list (list nat));
+                   cs_extra : option (option geom * list tens * list (list tens)) }.   (* geometry?, kernel_pairs, indices *)
+
+Definition gates_shape (g : list (list (list nat))) : list (list nat) := map (map (@length nat)) g.
+Definition gates_shape_eqb (a b : list (list (list nat))) : bool :=
+  list_eqb (list_eqb Nat.eqb) (gates_shape a) (gates_shape b).
+
+Fixpoint forallb2 {A B} (f : A -> B -> bool) (l1 : list A) (l2 : list B) : bool :=
+  match l1, l2 with
+  | [], [] => true
+  | x :: r1, y :: r2 => f x y && forallb2 f r1 r2
+  | _, _ => false
+  end.
+
+(* all(int(p[..., d].max()) < lim for d, lim in enumerate(limits)): element j of the flat data is coordinate j mod len(limits) *)
+Fixpoint coords_below_from (limits : list nat) (j : nat) (data : list Z) : bool :=
+  match data with
+  | [] => true
+  | v :: rest => (v <? Z.of_nat (nth (j mod length limits) limits 0%nat))%Z && coords_below_from limits (S j) rest
+  end.
+Definition coords_below (limits : list nat) (p : tens) : bool := coords_below_from limits 0 (dat p).
+
+Definition pair_fits (limits : list nat) (p own : tens) : bool :=
+  tens_shape_eqb p own && negb (length (dat p) =? 0) && forallb (fun v => (0 <=? v)%Z) (dat p) && coords_below limits p.
+Definition pairs_fit (fresh : clayer) (pairs : list tens) : bool :=
+  (length pairs =? length (c_pairs fresh)) && forallb2 (pair_fits (rf_limits (c_geom fresh))) pairs (c_pairs fresh).
+
+Definition index_shapes_eqb (saved own : list (list tens)) : bool :=
+  (length saved =? length own) && forallb2 (fun lv ow => (length lv =? length ow) && forallb2 tens_shape_eqb lv ow) saved own.
+
+Definition conv_save (l : clayer) : csaved :=
+  {| cs_gates := c_gates l; cs_extra := Some (Some (c_geom l), c_pairs l, c_indices l) |}.
+
+Section ConvLoad.
+  (* get_indices_from_kernel_pairs of the receiving layer (used for checkpoints that carry no geometry) *)
+  Variable recompute : geom -> list tens -> list (list tens).
+
+  Definition conv_load (fresh : clayer) (sv : csaved) : option clayer :=
+    if negb (gates_shape_eqb (cs_gates sv) (c_gates fresh)) then None
+    else match cs_extra sv with
+         | None => Some {| c_geom := c_geom fresh; c_gates := cs_gates sv; c_pairs := c_pairs fresh; c_indices := c_indices fresh |}
+         | Some (og, pairs, idx) =>
+             if negb (pairs_fit fresh pairs) then None
+             else match og with
+                  | Some g =>
+                      if negb (geom_eqb g (c_geom fresh)) then None
+                      else if negb (index_shapes_eqb idx (c_indices fresh)) then None
+                      else Some {| c_geom := c_geom fresh; c_gates := cs_gates sv; c_pairs := pairs; c_indices := idx |}
+                  | None => Some {| c_geom := c_geom fresh; c_gates := cs_gates sv; c_pairs := pairs;
+                                    c_indices := recompute (c_geom fresh) pairs |}
+                  end
+         end.
+End ConvLoad.
+
+(* what two layers built with the same constructor arguments (under any two RNG states) have in common *)
+Definition built_alike (a b : clayer) : bool :=
+  geom_eqb (c_geom a) (c_geom b) && gates_shape_eqb (c_gates a) (c_gates b)
+  && (length (c_pairs a) =? length (c_pairs b)) && forallb2 tens_shape_eqb (c_pairs a) (c_pairs b)
+  && index_shapes_eqb (c_indices a) (c_indices b).
+(* the kernel pairs of a constructed layer lie inside its receptive field *)
+Definition conv_pairs_wf (l : clayer) : bool := pairs_fit l (c_pairs l).
+
+(* ---- learnable thermometer: the parameter and the frozen flag ---- *)
+Record tstate := { th_raw : list Z; th_frozen : bool }.
+Record tsaved := { ts_raw : list Z; ts_extra : option bool }.
+Definition thermo_save (t : tstate) : tsaved := {| ts_raw := th_raw t; ts_extra := Some (th_frozen t) |}.
+Definition thermo_load (fresh : tstate) (sv : tsaved) : option tstate :=
+  if negb (length (ts_raw sv) =? length (th_raw fresh)) then None
+  else Some {| th_raw := ts_raw sv; th_frozen := match ts_extra sv with Some f => f | None => th_frozen fresh end |}.
